@@ -43,6 +43,9 @@ CHECKS = {
     "C09": ("exploration", "runtime monitoring: end-to-end through the real CLI; offline checker over the launch's JSONL (bracket, foreign keys, plan order, counts) + differential comparison of every run with a standalone run; ID stability under rewrites/mutations/file changes",
             "Generated (pipeline, run_space) launches with a failing run at every index, file/directory trace output, explicit / idempotency-key / generated launch ids and attempts 1..3 are executed by `semantiva run` (in-process, plus subprocess samples); the trace must show one run_space_start/_end bracket with truthful planned/completed counts, every pipeline_start carrying launch id, attempt, 0-based index and its plan context in plan order, no run after a failed one, and exit code 0 iff all completed. Every run's normalised SER stream (detail=all, so digests carry the result) and sink files must equal those of a standalone run given that run's context. The spec id printed by `semantiva inspect` must equal the one in the trace, stay fixed under key-order/style rewrites and change under plan mutations; idempotency-key launch ids must repeat; the inputs id must change exactly when a source file's content changes. Held = no deviation on the launches observed.",
             "The plan comes from an own expansion of context-only blocks (real expansion is C08's business). Volatile + foreign-key fields only are removed before the standalone comparison.", "DESIGN.md §4 C09"),
+    "C17": ("exploration", "runtime monitoring: side-effect observers around the real CLI (directory snapshot, leaf flight-recorder, audit hook on open/mkdir, strace sample) + exit-code oracle",
+            "Generated `semantiva run` invocations — configurations invalid in each documented way, missing required context keys (decided by an order-sensitive reference key-flow analysis, with an early sink placed before the node that needs the key), malformed / over-cap run spaces, missing files, usage errors, and --validate / --dry-run / --run-space-dry-run — are executed in a confined working directory: no leaf may run, no sink or trace file may appear, and the exit code must be the documented one; executing invocations must start exactly the planned runs up to the first failing one and exit 0 iff all completed. Held = no deviation on the invocations observed.",
+            "Missing run-space source file accepts exit 2 or 3 (documentation supports both readings); a missing key together with --dry-run accepts 0 or 3.", "DESIGN.md §4 C17"),
 }
 
 NOT_BUILT_REASON = "check not implemented yet in this round (work in progress; see DESIGN.md §4 for the planned monitor)"
